@@ -14,7 +14,7 @@ if [ $# -eq 0 ]; then
   [ "$rcuc" -ne 0 ] && exit "$rcuc"
   /venv/bin/python "$here/tools/py2v_filt/main.py" --repo "${BIOM_REPO:-/repo}" --out "$here"; rcfilt=$?   # wrapper mode (tools/regen_filt.sh)
   [ "$rcfilt" -ne 0 ] && exit "$rcfilt"
-  /venv/bin/python "$here/tools/py2v_part/main.py" --repo "${BIOM_REPO:-/repo}" --out "$here"; rcpart=$?   # grouping mode (tools/regen_part.sh)
+  /venv/bin/python "$here/tools/py2v_part/main.py" --repo "${BIOM_REPO:-/repo}" --out "$here"; rcpart=$?   # grouping mode (tools/regen_part.sh): PartitionGen.v and CollapseGen.v
   [ "$rcpart" -ne 0 ] && exit "$rcpart"
   /venv/bin/python "$here/tools/py2v_cat/main.py" --repo "${BIOM_REPO:-/repo}" --out "$here"; rccat=$?   # accumulator mode (tools/regen_cat.sh)
   [ "$rccat" -ne 0 ] && exit "$rccat"
